@@ -359,6 +359,9 @@ func kindOf(t types.Type) string {
 	if isErr(t) {
 		return "err"
 	}
+	if isBlockSlice(t) {
+		return "blocks"
+	}
 	if a, ok := t.Underlying().(*types.Array); ok && a.Len() == 8 {
 		if e, ok := a.Elem().Underlying().(*types.Basic); ok && e.Kind() == types.Uint8 {
 			return "le64" // [8]byte holding a little-endian uint64 (binary.LittleEndian.PutUint64): modelled as that number
@@ -396,7 +399,24 @@ func coqTy(k string) string {
 	if k == "bool" {
 		return "bool"
 	}
+	if k == "blocks" {
+		return "list (Z * Z * Z)" // descendant blocks a contract method returns: (ToAddress, Amount, TokenStandard) each
+	}
 	return "Z"
+}
+
+// isBlockSlice: []*nom.AccountBlock (what an embedded method's ReceiveBlock returns)
+func isBlockSlice(t types.Type) bool {
+	sl, ok := t.Underlying().(*types.Slice)
+	if !ok {
+		return false
+	}
+	p, ok := sl.Elem().(*types.Pointer)
+	if !ok {
+		return false
+	}
+	n, ok := p.Elem().(*types.Named)
+	return ok && n.Obj().Name() == "AccountBlock" && n.Obj().Pkg() != nil && strings.HasSuffix(n.Obj().Pkg().Path(), "chain/nom")
 }
 func wrap(k, e string) string {
 	switch k {
@@ -727,6 +747,74 @@ func call2name(c *ctx, call *ast.CallExpr) string {
 		c.oracleN = map[string]int{}
 	}
 	return c.oracleName(call)
+}
+
+// idExpr: a fixed-size byte value (address, token standard, hash) as a number: a package variable (dumped constant)
+// or an input hanging off a parameter
+func (c *ctx) idExpr(e ast.Expr) gexp {
+	if sel, ok := e.(*ast.SelectorExpr); ok {
+		if id, ok := sel.X.(*ast.Ident); ok {
+			if _, isPkg := c.info.Uses[id].(*types.PkgName); isPkg {
+				if v, ok := c.info.Uses[sel.Sel].(*types.Var); ok {
+					return gexp{e: "Consts." + v.Name()}
+				}
+			}
+		}
+	}
+	if st, ok := e.(*ast.StarExpr); ok {
+		return c.idExpr(st.X)
+	}
+	if c.rootParam(e) {
+		return c.leaf(e, "big", "")
+	}
+	bad(e.Pos(), "byte value %s is neither a package variable nor hangs off a parameter", exprString(e))
+	return gexp{}
+}
+
+// blocksExpr: nil or a literal []*nom.AccountBlock{ {ToAddress: .., Amount: .., TokenStandard: ..}, .. } as the list of
+// (ToAddress, Amount, TokenStandard); the other fields of a descendant block (Address, BlockType, Data) are not part of it
+func (c *ctx) blocksExpr(e ast.Expr) gexp {
+	if id, ok := e.(*ast.Ident); ok && id.Name == "nil" {
+		return gexp{e: "nil"}
+	}
+	lit, ok := e.(*ast.CompositeLit)
+	if !ok {
+		bad(e.Pos(), "descendant blocks must be nil or a literal")
+	}
+	var items []string
+	var g []string
+	for _, el := range lit.Elts {
+		if u, ok := el.(*ast.UnaryExpr); ok && u.Op == token.AND {
+			el = u.X
+		}
+		bl, ok := el.(*ast.CompositeLit)
+		if !ok {
+			bad(el.Pos(), "descendant block must be a literal")
+		}
+		to, amt, zts := "0", "0", "0"
+		for _, kv := range bl.Elts {
+			p, ok := kv.(*ast.KeyValueExpr)
+			if !ok {
+				bad(kv.Pos(), "descendant block literal without field names")
+			}
+			switch p.Key.(*ast.Ident).Name {
+			case "ToAddress":
+				v := c.idExpr(p.Value)
+				to, g = v.e, merge(g, v.g)
+			case "TokenStandard":
+				v := c.idExpr(p.Value)
+				zts, g = v.e, merge(g, v.g)
+			case "Amount":
+				v := c.expr(p.Value)
+				amt, g = v.e, merge(g, v.g)
+			}
+		}
+		items = append(items, "("+to+", "+amt+", "+zts+")")
+	}
+	if len(items) == 0 {
+		return gexp{e: "nil", g: g}
+	}
+	return gexp{e: "(" + strings.Join(items, " :: ") + " :: nil)", g: g}
 }
 
 func rootIdent(e ast.Expr) *ast.Ident {
@@ -1110,8 +1198,28 @@ func (c *ctx) call(x *ast.CallExpr, k string) gexp {
 	}
 	if sel, ok := x.Fun.(*ast.SelectorExpr); ok {
 		for _, cp := range c.spec.Captures {
-			parts := strings.SplitN(cp, ":", 2)
-			if parts[0] == "."+sel.Sel.Name && len(parts) == 2 {
+			parts := strings.SplitN(cp, ":", 3)
+			if parts[0] == "."+sel.Sel.Name && len(parts) >= 2 && (len(parts) == 2 || parts[2] == exprString(sel.X)) {
+				if parts[1] == "called" {
+					// the effect is the call itself, on THIS receiver: eff_<receiver>_<Method> := Some 1
+					name := c.oracleName(x)
+					if name == "" {
+						bad(x.Pos(), "captured call %s must also be listed as an oracle", cp)
+					}
+					rs := c.oracleResults(x, name)
+					if len(rs) != 1 || rs[0] == "" {
+						bad(x.Pos(), "captured call %s: single scalar result expected", cp)
+					}
+					eff := "eff_" + sanitize(exprString(sel.X)) + "_" + sel.Sel.Name
+					found := false
+					for _, o := range c.outF {
+						found = found || o == eff
+					}
+					if !found {
+						bad(x.Pos(), "capture %s: receiver %s is not declared in the spec (captures entry \".%s:called:%s\")", cp, exprString(sel.X), sel.Sel.Name, exprString(sel.X))
+					}
+					return gexp{rs[0], []string{"LET " + eff + " := (Some 1)"}}
+				}
 				idx := 0
 				fmt.Sscanf(parts[1], "%d", &idx)
 				if idx >= len(x.Args) {
@@ -1460,9 +1568,14 @@ func (c *ctx) stmts(list []ast.Stmt) string {
 			bad(x.Pos(), "return of a multi-value call is not supported")
 		}
 		for i, r := range x.Results {
+			if i < c.results.Len() && kindOf(c.results.At(i).Type()) == "blocks" {
+				ge := c.blocksExpr(r)
+				g = merge(g, ge.g)
+				vals = append(vals, ge.e)
+				continue
+			}
 			// big.Int results are values; error results nil/var
 			ge := c.expr(r)
-			_ = i
 			g = merge(g, ge.g)
 			vals = append(vals, ge.e)
 		}
@@ -1521,6 +1634,20 @@ func (c *ctx) stmts(list []ast.Stmt) string {
 				}
 			}
 		}
+		if call, ok := x.X.(*ast.CallExpr); ok {
+			if sel, ok := call.Fun.(*ast.SelectorExpr); ok {
+				if fsel, ok := sel.X.(*ast.SelectorExpr); ok && c.rootParam(fsel) && isBig(c.info.Types[fsel].Type) {
+					switch sel.Sel.Name {
+					case "Add", "Sub", "Mul", "Set":
+						if r, ok := c.bigMethod(sel.X, sel.Sel.Name, call.Args, x.Pos()); ok {
+							fn, _ := c.fieldName(fsel)
+							c.leaf(fsel, "big", "")
+							return guardWrap(r.g, "(let "+fn+" := "+r.e+" in "+c.stmts(rest)+")")
+						}
+					}
+				}
+			}
+		}
 		// binary.LittleEndian.PutUint64(arr[:], e) on a local [8]byte: arr := e
 		if call, ok := x.X.(*ast.CallExpr); ok && len(call.Args) == 2 {
 			if sel, ok := call.Fun.(*ast.SelectorExpr); ok && sel.Sel.Name == "PutUint64" {
@@ -1532,6 +1659,28 @@ func (c *ctx) stmts(list []ast.Stmt) string {
 						}
 					}
 				}
+			}
+		}
+		// an oracle call whose result is ignored: only its captured effect (if any) remains
+		if call, ok := x.X.(*ast.CallExpr); ok && c.oracleName(call) != "" {
+			k := ""
+			if t := c.info.Types[call].Type; t != nil {
+				k = kindOf(t)
+			}
+			if k != "" {
+				ge := c.call(call, k)
+				return guardWrap(ge.g, c.stmts(rest))
+			}
+			// a call without result (e.g. a Save that panics by itself): only a ":called" capture is left of it
+			if sel, ok := call.Fun.(*ast.SelectorExpr); ok {
+				for _, cp := range c.spec.Captures {
+					parts := strings.SplitN(cp, ":", 3)
+					if len(parts) == 3 && parts[0] == "."+sel.Sel.Name && parts[1] == "called" && parts[2] == exprString(sel.X) {
+						eff := "eff_" + sanitize(parts[2]) + "_" + sel.Sel.Name
+						return "(let " + eff + " := (Some 1) in " + c.stmts(rest) + ")"
+					}
+				}
+				return c.stmts(rest)
 			}
 		}
 		// panic(..)
@@ -1776,7 +1925,16 @@ func (c *ctx) declThen(gd *ast.GenDecl, rest []ast.Stmt) string {
 			t := c.info.Defs[n].Type()
 			k := kindOf(t)
 			if k == "" {
-				bad(n.Pos(), "local %s of unsupported type %s", n.Name, t)
+				if len(vs.Values) > j {
+					bad(n.Pos(), "local %s of unsupported type %s", n.Name, t)
+				}
+				// declared only: an opaque local that oracle calls fill in and read
+				if c.opaqueL == nil {
+					c.opaqueL = map[string]bool{}
+				}
+				c.opaqueL[n.Name] = true
+				c.params[n.Name] = true
+				continue
 			}
 			init := "0"
 			if k == "bool" {
@@ -1878,10 +2036,18 @@ func (c *ctx) assign(x *ast.AssignStmt, rest []ast.Stmt) string {
 	if len(x.Lhs) != len(x.Rhs) {
 		bad(x.Pos(), "multi-value assignment from a call is not supported")
 	}
+	if len(x.Lhs) == 1 && x.Tok == token.ASSIGN {
+		if id, ok := x.Lhs[0].(*ast.Ident); ok && c.opaqueL[id.Name] {
+			if call, isCall := x.Rhs[0].(*ast.CallExpr); isCall && (c.oracleName(call) != "" || c.oraclePkg(call) != "") {
+				return c.stmts(rest) // the opaque local now holds that oracle's result; only oracles read it
+			}
+			bad(x.Pos(), "assignment to the opaque local %s from something that is not an oracle call", id.Name)
+		}
+	}
 	if len(x.Lhs) == 1 && x.Tok != token.DEFINE {
 		if fn, ok := c.fieldName(x.Lhs[0]); ok {
 			k := kindOf(c.info.Types[x.Lhs[0]].Type)
-			if k == "" || k == "big" {
+			if k == "" {
 				bad(x.Pos(), "assignment to field %s of unsupported type", fn)
 			}
 			c.leaf(x.Lhs[0], k, "") // its initial value is an input
@@ -1916,6 +2082,8 @@ func (c *ctx) assign(x *ast.AssignStmt, rest []ast.Stmt) string {
 					c.alias[id.Name] = substParams(x.Rhs[0], c.alias)
 				} else if isOracle {
 					// a distinct result per call: the local's own name identifies it
+				} else if isCall && func() bool { id, ok := call.Fun.(*ast.Ident); return ok && id.Name == "new" }() {
+					// a fresh zero value that only oracle calls fill in and read
 				} else {
 					bad(x.Pos(), "local %s of a type outside the subset is neither an oracle result nor hangs off a parameter", id.Name)
 				}
@@ -2153,8 +2321,11 @@ func translate(p *packages.Package, f SpecFn, known map[string]*SpecFn, errs map
 	}
 	var effNames []string
 	for _, cp := range f.Captures {
-		parts := strings.SplitN(cp, ":", 2)
+		parts := strings.SplitN(cp, ":", 3)
 		nm := "eff_" + strings.TrimPrefix(parts[0], ".") + "_" + parts[1]
+		if len(parts) == 3 && parts[1] == "called" {
+			nm = "eff_" + sanitize(parts[2]) + "_" + strings.TrimPrefix(parts[0], ".")
+		}
 		effNames = append(effNames, nm)
 		c.outF = append(c.outF, nm)
 		rts = append(rts, "option Z")
